@@ -5,6 +5,7 @@ ADAPTATIONS = [
     "A3 format()/repr()/f-string of a symbolic number (repr: also of a symbolic str) yields the placeholder '<symbolic>' (message text is outside the claim) unless the harness selects the faithful policy",
     "A4 crosshair.register_contract.get_contract swallows TypeError for unhashable callables",
     "A5 param._utils._find_pname returns None and param's logger gets a NullHandler (stack walking/logging only)",
+    "A7 dict(mapping-or-pairs, **kw) with concrete keys builds a real dict (CrossHair's ShellMutableMap moves a re-assigned existing key to the end, which changes iteration order relative to CPython)",
     "A6 PYTHONHASHSEED=0 and the search order is seeded from VERIF_SEED",
     "trusted: CPython 3.12, z3 5.1, CrossHair 0.0.110 proxies/tracer/decision tree (its exhaustion flag), the reference model of the harness",
 ]
